@@ -977,6 +977,53 @@ class Builder:
                     if km:
                         edits.append(Edit(pos, pos + km.end(), [Seg(".vx_collect()", "repo", fn=qual)]))
                     self.count("R23")
+            if rule[0] == "R24":
+                # E.chunks(N).enumerate().map(CL) -> ({ let vx_f = CL; vx_chunks_enumerate_map(E, N, vx_f) })
+                for mm in re.finditer(r"\.\s*chunks\s*\(", m[a:b]):
+                    op = a + mm.end() - 1
+                    cp = rs.match_close(m, op)
+                    t = re.match(r"\s*\.\s*enumerate\s*\(\s*\)\s*\.\s*map\s*\(", m[cp + 1:b])
+                    if not t:
+                        continue
+                    mo = cp + 1 + t.end() - 1
+                    mc = rs.match_close(m, mo)
+                    k = chain_start(m, a, a + mm.start())
+                    # E may start with `&`-less slicing of a field: take a reference to it
+                    edits.append(Edit(k, k, [Seg("({ let vx_s = &", "repo", fn=qual)]))
+                    edits.append(Edit(a + mm.start(), op + 1, [Seg("; let vx_n = ", "repo", fn=qual)]))
+                    edits.append(Edit(cp, mo + 1, [Seg("; let vx_f = ", "repo", fn=qual)]))
+                    edits.append(Edit(mc, mc + 1, [Seg("; vx_chunks_enumerate_map(vx_s, vx_n, vx_f) })", "repo", fn=qual)], order=5))
+                    self.count("R24")
+            if rule[0] == "R25":
+                # for (IDX, PAT) in E.into_iter().enumerate() { BODY }  ->  explicit iterator, counter and `loop` (Rust's own desugaring of
+                # `for` plus the definition of `enumerate`); valid because BODY contains no `continue`
+                for mm in re.finditer(r"(?<![A-Za-z0-9_])for\s*\(\s*([A-Za-z_][A-Za-z0-9_]*)\s*,", m[a:b]):
+                    kw = a + mm.start()
+                    po = a + mm.start() + m[a + mm.start():a + mm.end()].index("(")
+                    pc = rs.match_close(m, po)
+                    im = re.match(r"\s*in\s+", m[pc + 1:b])
+                    if not im:
+                        continue
+                    es = pc + 1 + im.end()
+                    em = re.search(r"\.\s*into_iter\s*\(\s*\)\s*\.\s*enumerate\s*\(\s*\)\s*\{", m[es:b])
+                    if not em:
+                        continue
+                    brace = es + em.end() - 1
+                    close = rs.match_close(m, brace)
+                    if re.search(r"(?<![A-Za-z0-9_])continue(?![A-Za-z0-9_])", m[brace:close]):
+                        continue
+                    idx = mm.group(1)
+                    pat = src[a + mm.end():pc].strip()
+                    expr = src[es:es + em.start()].strip()
+                    edits.append(Edit(kw, brace, [Seg("let mut vx_it = %s.into_iter(); let mut %s: usize = 0; #[verifier::loop_isolation(false)] loop " % (expr, idx), "repo", fn=qual)]))
+                    edits.append(Edit(brace + 1, brace + 1, [Seg(" match vx_it.next() { None => { break; } Some(%s) => {" % pat, "repo", fn=qual)], order=-6))
+                    edits.append(Edit(close, close, [Seg(" %s += 1; } } " % idx, "repo", fn=qual)], order=6))
+                    self.count("R25")
+            if rule[0] == "R26":
+                # X[A..].iter_mut().for_each(|b| *b = V)  ->  vx_fill_from(&mut X, A, V)
+                for mm in re.finditer(r"([A-Za-z_][A-Za-z0-9_]*)\s*\[([^\[\]]*?)\.\.\s*\]\s*\.\s*iter_mut\s*\(\s*\)\s*\.\s*for_each\s*\(\s*\|\s*([A-Za-z_][A-Za-z0-9_]*)\s*\|\s*\*\s*\3\s*=\s*([^)]*?)\)", m[a:b]):
+                    edits.append(Edit(a + mm.start(), a + mm.end(), [Seg("vx_fill_from(&mut %s, %s, %s)" % (mm.group(1), src[a + mm.start(2):a + mm.end(2)].strip(), src[a + mm.start(4):a + mm.end(4)].strip()), "repo", fn=qual)]))
+                    self.count("R26")
             if rule[0] == "R18":
                 # `E.then(|| BODY)` -> `(if E { Some(BODY) } else { None })`  (the definition of bool::then)
                 for mm in re.finditer(r"\.\s*then\s*\(\s*\|\s*\|", m[a:b]):
